@@ -2,7 +2,7 @@
 (b) scheduler-script nodes inside graphs, both against the pending-set specification (model.SchedModel)."""
 from __future__ import annotations
 import itertools, os, random, subprocess
-from .runner import Result, Violation, Inconclusive, ensure_build, SCRATCH
+from .runner import Result, Violation, Inconclusive, ensure_build, SCRATCH, scaled
 from .gen_core import gen_case, gen_sched_ops, UID
 from .prog import Case, S
 from . import model as M
@@ -91,7 +91,7 @@ def native_model(a, b, active, ops, end):
 
 
 def native_phase(exe, rng, tier, seed, d):
-    n = 1500 if tier == "quick" else 30000
+    n = scaled(1500 if tier == "quick" else 30000)
     cases = []
     for _ in range(n):
         end = rng.choice([20, 30])
@@ -225,7 +225,7 @@ def gen_graph_case(rng, name):
 
 
 def generate(rng, tier, seed):
-    n = 300 if tier == "quick" else 5000
+    n = scaled(300 if tier == "quick" else 5000)
     return [gen_graph_case(rng, f"c18_{seed}_{k}") for k in range(n)]
 
 
